@@ -161,7 +161,7 @@ def scalar_pair(s, d, where):
         if re.search(r"<<[\"']?\s*:", s) and not re.search(r"<<[\"']?\s*:", d):
             return f | {"merge-kept-vs-expanded"}
         ts, td = flow_tokens(s), flow_tokens(d)
-        cs, cd = [canon_tok(x) for x in ts], [canon_tok(x) for x in td]
+        cs, cd = [canon_tok(x) for x in ts if x.endswith("\x00key")], [canon_tok(x) for x in td if x.endswith("\x00key")]
         if cs != cd and sorted(cs) == sorted(cd):
             return f | {"key-order"}
         if len(ts) != len(td):
@@ -569,7 +569,7 @@ def run(ctx):
     rep = batch.Report()
     if ctx["replay"]:
         return cligen.replay_sets(rep, ctx, rejudge)
-    ydocs = [d[0] for d in cligen.ycorpus(tier)]
+    ydocs = [d[0] for d in (cligen.ycorpus(tier, strs=cligen.YSTR_QUICK[:19], keys=cligen.YKEYS_QUICK[:15]) if tier == "quick" else cligen.ycorpus(tier))]
     items = [("yq", d, "") for d in ydocs] + [("yq", d, "dupkeys") for d, _ in cligen.YDUP] + [("jq", d, "") for d in json_docs(tier)]
     items += [("jq", d, "dupkeys") for d in (b'{"a":1,"a":2}', b'{"k":{"j":1,"j":2},"a":3,"k":4}', b'[{"a":1,"a":2},{"k":1,"k":[2]}]')]
     parts = cligen.shard_run(work, items, nshards=min(len(items), 64))
